@@ -215,13 +215,17 @@ cld ref_op(int op, const cld& a, const cld& b) {
 enum VCls { V_SMALLINT = 0, V_SPECIAL, V_GAUSS, V_WIDE, V_MIXED, V_NCLS };
 const char* const VCLS_NAME[] = {"small-int", "special(+-0,+-1,+-i,1e+-100)", "gauss", "wide(1e-100..1e100)", "mixed"};
 
+// the special values (also enumerated as a full cross product by the scalar_ops sub-check)
+constexpr int N_RV_SPECIAL = 10, N_CV_SPECIAL = 16, N_IV_SPECIAL = 8;
+const double RV_SPECIAL[N_RV_SPECIAL] = {0.0, -0.0, 1.0, -1.0, 0.5, -2.0, 1e-100, -1e-100, 1e100, -1e100};
+const double CV_SPECIAL[N_CV_SPECIAL][2] = {{0.0, 0.0}, {-0.0, 0.0}, {0.0, -0.0}, {-0.0, -0.0}, {1, 0}, {-1, 0}, {0, 1}, {0, -1}, {1, 1}, {-1, -0.0},
+                                            {1e100, 0}, {0, -1e100}, {1e-100, 0}, {-0.0, 1e-100}, {7e99, -7e99}, {1e-100, 1e-100}};
+const int IV_SPECIAL[N_IV_SPECIAL] = {0, 1, -1, 2, INT_MAX, INT_MIN, 1000000007, -7};
+
 double rv(Rng& r, int cls) {
     switch (cls) {
     case V_SMALLINT: return double(r.range(-3, 3));
-    case V_SPECIAL: {
-        static const double s[] = {0.0, -0.0, 1.0, -1.0, 0.5, -2.0, 1e-100, -1e-100, 1e100, -1e100};
-        return s[r.range(0, 9)];
-    }
+    case V_SPECIAL: return RV_SPECIAL[r.range(0, 9)];
     case V_GAUSS: return r.gauss();
     case V_WIDE: return (r.coin() ? 1.0 : -1.0) * r.logmag(-99.5, 99.5);
     default: return rv(r, r.range(0, 3));
@@ -231,10 +235,8 @@ cmplx_t cv(Rng& r, int cls) {
     switch (cls) {
     case V_SMALLINT: { double a = r.range(-3, 3), b = r.range(-3, 3); return {a, b}; }
     case V_SPECIAL: {
-        static const double s[][2] = {{0.0, 0.0}, {-0.0, 0.0}, {0.0, -0.0}, {-0.0, -0.0}, {1, 0}, {-1, 0}, {0, 1}, {0, -1}, {1, 1}, {-1, -0.0},
-                                      {1e100, 0}, {0, -1e100}, {1e-100, 0}, {-0.0, 1e-100}, {7e99, -7e99}, {1e-100, 1e-100}};
         int k = r.range(0, 15);
-        return {s[k][0], s[k][1]};
+        return {CV_SPECIAL[k][0], CV_SPECIAL[k][1]};
     }
     case V_GAUSS: { double a = r.gauss(), b = r.gauss(); return {a, b}; }
     case V_WIDE: {
@@ -253,7 +255,7 @@ cmplx_t cv(Rng& r, int cls) {
 int iv(Rng& r, int cls) {
     switch (cls) {
     case V_SMALLINT: return r.range(-3, 3);
-    case V_SPECIAL: { static const int s[] = {0, 1, -1, 2, INT_MAX, INT_MIN, 1000000007, -7}; return s[r.range(0, 7)]; }
+    case V_SPECIAL: return IV_SPECIAL[r.range(0, 7)];
     case V_GAUSS: return r.range(-1000, 1000);
     case V_WIDE: return int(uint32_t(r.next()));
     default: return iv(r, r.range(0, 3));
@@ -346,6 +348,32 @@ void compare_single(const Val& out, int unary, int op, const Val& A, const Val& 
     o.metric(std::string("err/tol ") + (unary ? "unary" : OP_NAME[op]) + (real_only ? " real" : " complex"), worst);
 }
 
+// An int scalar at the ends of its range (INT_MIN, INT_MAX) with + or -: the int converts to double exactly and every component
+// is ONE correctly rounded operation, so the element must equal x + double(s) / x - double(s) / double(s) - x exactly
+// (x - INT_MIN == x + 2147483648.0; a library that negates or offsets the int before converting it wraps around).
+void int_extreme_exact(const Val& out, int form, int op, const Val& A, const Val& B, int n, const std::string& what, Out& o) {
+    const bool left = ty_of(A) == T_SI;
+    if (!left && ty_of(B) != T_SI) return;
+    const int s = std::get<int>(left ? A : B);
+    if (s != INT_MIN && s != INT_MAX) return;
+    o.label(std::string("int-scalar:") + (s == INT_MIN ? "INT_MIN " : "INT_MAX ") + OP_NAME[op] + (form == F_CMP ? "= (compound)" : left ? " (int on the left)" : " (int on the right)"));
+    if (op != ADD && op != SUB) return;
+    if (len_of(out) != n) return;
+    const double sd = double(s);
+    const std::vector<cld> x = ref_of(left ? B : A, n), g = ref_of(out, n);
+    for (int i = 0; i < n; ++i) {
+        const double xr = double(x[size_t(i)].real()), xi = double(x[size_t(i)].imag());   // exact: these are the doubles of the operand
+        const double er = op == ADD ? xr + sd : left ? sd - xr : xr - sd;
+        const double ei = (op == SUB && left) ? -xi : xi;
+        const double gr = double(g[size_t(i)].real()), gi = double(g[size_t(i)].imag());
+        if (!(gr == er && gi == ei)) {
+            o.fail("int-extreme:" + what, fmt("%s with the int = %d, n=%d: element %d is (%.17g, %.17g) from x=(%.17g, %.17g); one exact double operation with %.1f gives (%.17g, %.17g)",
+                                              what.c_str(), s, n, i, gr, gi, xr, xi, sd, er, ei));
+            return;
+        }
+    }
+}
+
 bool all_zero(const Val& v) {
     int n = len_of(v);
     if (n < 0) n = 1;
@@ -413,6 +441,12 @@ static void mx_check(const Json& c, Out& o) {
     const std::string what = combo_name(form, op, lt, rt);
     Val a = mk(r, lt, n, vcls, false);
     Val b = unary ? Val(std::in_place_type<int>, 0) : mk(r, rt, n, vcls, op == DIV);   // divisors away from zero by construction
+    // "ispec" (absent = 0 = whatever the value class drew): 1 / 2 pin an int scalar operand to INT_MIN / INT_MAX
+    const int ispec = c.geti("ispec", 0);
+    if (!unary && (ispec == 1 || ispec == 2)) {
+        if (lt == T_SI) a = Val(std::in_place_type<int>, ispec == 1 ? INT_MIN : INT_MAX);
+        if (rt == T_SI) b = Val(std::in_place_type<int>, ispec == 1 ? INT_MIN : INT_MAX);
+    }
     const Val sa = a, sb = b;
     Exec ex;
     if (unary) ex = run_unary(form == F_NEG, a);
@@ -429,6 +463,7 @@ static void mx_check(const Json& c, Out& o) {
         o.fail("operand-modified:" + what, fmt("%s, n=%d: the left/only operand changed", what.c_str(), n));
     }
     if (!unary && !same_bits(b, sb)) o.fail("operand-modified:" + what, fmt("%s, n=%d: the right operand changed", what.c_str(), n));
+    if (!unary && !o.failed) int_extreme_exact(ex.out, form, op, sa, sb, n, what, o);
     if (n >= 2 && !(all_zero(sa) && (unary || all_zero(sb)))) o.nontrivial(key_of(form, op, lt, rt, n, vcls));
     o.label(std::string("form:") + FORM_NAME[form] + (unary ? "" : std::string(" ") + OP_NAME[op]));
     o.label(std::string("side:") + side_of({form, op, lt, rt}));
@@ -447,10 +482,24 @@ static void mx_gen(Ctx& ctx) {
                     ctx.eval(Json::object().set("form", k.form).set("op", k.op).set("lt", k.lt).set("rt", k.rt).set("n", n).set("vcls", vcls)
                                .set("seed", case_seed(ctx.seed, key_of(ci, n, vcls, rep))));
                 }
+    // every form with an int scalar x {INT_MIN, INT_MAX} x a few lengths x every value class of the array operand
+    for (size_t ci = 0; ci < combos.size(); ++ci)
+        for (int n : {0, 1, 2, 3, 8, 64})
+            for (int vcls = 0; vcls < V_NCLS; ++vcls)
+                for (int ispec = 1; ispec <= 2; ++ispec) {
+                    const Combo& k = combos[ci];
+                    if (k.form != F_BIN && k.form != F_CMP) continue;
+                    if (k.lt != T_SI && k.rt != T_SI) continue;
+                    if (!ctx.mine()) continue;
+                    ctx.eval(Json::object().set("form", k.form).set("op", k.op).set("lt", k.lt).set("rt", k.rt).set("n", n).set("vcls", vcls).set("ispec", ispec)
+                               .set("seed", case_seed(ctx.seed, key_of(ci, n, vcls, ispec, 41))));
+                }
     ctx.rc("sampled", budget(ctx, 1500000, 12000000), [&]() {
         const Combo& k = combos[size_t(pick(0, int(combos.size()) - 1))];
         int n = pick(0, 3) == 0 ? pick_log(65, 10000) : pick(0, 64);
-        return Json::object().set("form", k.form).set("op", k.op).set("lt", k.lt).set("rt", k.rt).set("n", n).set("vcls", pick(0, V_NCLS - 1)).set("seed", (long long)seed64());
+        Json j = Json::object().set("form", k.form).set("op", k.op).set("lt", k.lt).set("rt", k.rt).set("n", n).set("vcls", pick(0, V_NCLS - 1));
+        if ((k.form == F_BIN || k.form == F_CMP) && (k.lt == T_SI || k.rt == T_SI)) { const int e = pick(0, 7); if (e >= 6) j.set("ispec", e - 5); }
+        return j.set("seed", (long long)seed64());
     });
 }
 
@@ -1072,6 +1121,25 @@ void zeropad_case(int n, int n2, int vcls, Rng& r, Out& o) {
     const A x = mk_arr<T>(r, n, vcls);
     const A sx = x;
     static_assert(std::is_same_v<decltype(zeropad(x, n2)), A>);
+    if (n2 < n) {
+        // A target shorter than the array has no designated result (padding never drops elements): the library rejects it
+        // ("padding size error"); returning normally - truncated or otherwise - is the failure, and the source must stay as it is.
+        bool threw = false;
+        std::string how;
+        try {
+            A t = zeropad(x, n2);
+            how = fmt("returned normally with %d elements", t.size());
+        } catch (const std::exception&) {
+            threw = true;
+        } catch (...) {
+            how = "threw something that is not a std::exception";
+        }
+        if (!threw) o.fail("zeropad-shorter-accepted:" + what, fmt("%s of %d elements to the shorter length %d %s; an exception is required", what.c_str(), n, n2, how.c_str()));
+        if (!bits_same(x, sx)) o.fail("source-modified:" + what, what + ": the source changed (rejected call)");
+        o.nontrivial(key_of(SK_ZEROPAD, sizeof(T), n, n2, 1234));
+        o.label(std::string("concat:") + what + (n2 < 0 ? " (negative target: rejected)" : n2 == 0 ? " (target 0 < size: rejected)" : " (target shorter than the array: rejected)"));
+        return;
+    }
     A got = zeropad(x, n2);
     if (got.size() != n2) { o.fail("zeropad-length:" + what, fmt("%s of %d elements to %d returned %d", what.c_str(), n, n2, got.size())); return; }
     for (int i = 0; i < n2; ++i) {
@@ -1086,7 +1154,8 @@ void zeropad_case(int n, int n2, int vcls, Rng& r, Out& o) {
 }   // namespace
 static void sc_check(const Json& c, Out& o) {
     const int kind = c.geti("kind"), tl = c.geti("tl"), tr = c.geti("tr", 0), n = c.geti("n"), m = c.geti("m", 0), icls = c.geti("icls", 0), vcls = c.geti("vcls");
-    if (kind < 0 || kind >= SK_N || n < 0 || m < 0 || tl < 0 || tl > 1 || tr < 0 || tr > 1) { o.discard = true; return; }
+    // m < 0 only for zeropad: the target length n + m is then shorter than the array (n + m may be negative too)
+    if (kind < 0 || kind >= SK_N || n < 0 || (m < 0 && kind != SK_ZEROPAD) || tl < 0 || tl > 1 || tr < 0 || tr > 1) { o.discard = true; return; }
     Rng r(c.getu("seed"));
     switch (kind) {
     case SK_MASK:
@@ -1149,6 +1218,13 @@ static void sc_gen(Ctx& ctx) {
                 if (!ctx.mine()) continue;
                 ctx.eval(Json::object().set("kind", int(SK_ZEROPAD)).set("tl", tl).set("n", n).set("m", pad).set("vcls", int((n + pad) % V_NCLS)).set("seed", case_seed(ctx.seed, key_of(9, tl, n, pad))));
             }
+    // zeropad to a shorter (or negative) length: every n, every target in -2..n-1
+    for (int tl = 0; tl < 2; ++tl)
+        for (int n = 0; n <= top; ++n)
+            for (int n2 = -2; n2 < n; ++n2) {
+                if (!ctx.mine()) continue;
+                ctx.eval(Json::object().set("kind", int(SK_ZEROPAD)).set("tl", tl).set("n", n).set("m", n2 - n).set("vcls", int((n + n2 + 2) % V_NCLS)).set("seed", case_seed(ctx.seed, key_of(10, tl, n, n2 + 2))));
+            }
     // concatenate with 2..5 arguments: all length tuples over {0,1,2,3}
     for (int tl = 0; tl < 2; ++tl)
         for (int nargs = 2; nargs <= 5; ++nargs) {
@@ -1176,7 +1252,8 @@ static void sc_gen(Ctx& ctx) {
             for (int i = 0; i < nargs; ++i) lens.push_back(pick(0, 5) == 0 ? pick_log(0, 3000) : pick(0, 20));
             j.set("n", 0).set("nargs", nargs).set("lens", Json(lens));
         } else if (kind == SK_ZEROPAD) {
-            j.set("n", n).set("m", pick(0, 2) == 0 ? 0 : pick_log(0, 10000));
+            const int w = pick(0, 5);
+            j.set("n", n).set("m", w < 2 ? 0 : w < 5 ? pick_log(0, 10000) : -pick(1, n + 2));   // the last: a target shorter than the array
         } else {
             j.set("n", n).set("m", pick_log(0, 2 * n + 3)).set("icls", pick(0, 8));
         }
@@ -1187,8 +1264,30 @@ static void sc_gen(Ctx& ctx) {
 // =========================================================================================== a copy is independent
 VK_SUB(cp, "copy_independence");
 namespace {
-enum CopyHow { CH_CTOR = 0, CH_ASSIGN, CH_ASSIGN_OVER, CH_VIA_VECTOR, CH_N };
-const char* const CH_NAME[] = {"copy-construct", "copy-assign to empty", "copy-assign over another", "through to_vec()/vector ctor"};
+// CH_CONV_ARRAY and later: the other constructors of base_array (array.h); their source is not a base_array<T> of the same type
+enum CopyHow { CH_CTOR = 0, CH_ASSIGN, CH_ASSIGN_OVER, CH_VIA_VECTOR, CH_CONV_ARRAY, CH_VECTOR, CH_VECTOR_MOVE, CH_POINTER, CH_INIT_LIST, CH_SLICE, CH_CONST_SLICE, CH_N };
+const char* const CH_NAME[] = {"copy-construct", "copy-assign to empty", "copy-assign over another", "through to_vec()/vector ctor",
+                               "converting ctor base_array<T2>", "ctor from std::vector lvalue", "ctor from std::vector rvalue", "ctor from pointer+count",
+                               "ctor from initializer_list", "ctor from slice_t", "ctor from const_slice_t"};
+// element type of the source ("src" in the case; 0 = the array's own element type)
+enum SrcTy { ST_SAME = 0, ST_INT, ST_FLOAT, ST_ZC, ST_N };
+const char* const ST_NAME[] = {"same element type", "int", "float", "std::complex<double>"};
+// which (how, source type) pairs array.h admits for arr_real (ty 0) / arr_cmplx (ty 1): is_array_convertible allows real->real and
+// cmplx->cmplx only (arr_real -> arr_cmplx is a static_assert, so is float -> int)
+bool adm_conv(int how, int ty, int src) {
+    const bool other = ty == 0 ? (src == ST_INT || src == ST_FLOAT) : src == ST_ZC;
+    switch (how) {
+    case CH_CONV_ARRAY: return other;
+    case CH_VECTOR:
+    case CH_POINTER: return src == ST_SAME || other;
+    case CH_VECTOR_MOVE:
+    case CH_INIT_LIST:
+    case CH_SLICE:
+    case CH_CONST_SLICE: return src == ST_SAME;
+    default: return false;
+    }
+}
+constexpr int IL_MAX = 8;   // initializer lists have a static length: 0..8 elements
 enum Mut { MU_ELEM = 0, MU_SCALAR_OP, MU_ARRAY_OP, MU_BAR_EQ, MU_NEG_ASSIGN, MU_DATA, MU_N };
 const char* const MU_NAME[] = {"element write", "op= scalar", "op= array", "|= array", "b = -b", "write through data()/iterators"};
 
@@ -1237,17 +1336,186 @@ void copy_case(int how, int mut, int op, int n, int vcls, Rng& r, Out& o) {
     o.label(std::string("copy:") + CH_NAME[how]);
     o.label(std::string("then:") + MU_NAME[mut]);
 }
+// ---- the other constructors: value = the source elements converted exactly, then independent of the source in both directions
+template<class S> S src_elem(Rng& r, int cls) {
+    if constexpr (std::is_same_v<S, real_t>) return rv(r, cls);
+    else if constexpr (std::is_same_v<S, cmplx_t>) return cv(r, cls);
+    else if constexpr (std::is_same_v<S, int>) return iv(r, cls);
+    else if constexpr (std::is_same_v<S, zc>) { const cmplx_t v = cv(r, cls); return zc(v.re, v.im); }
+    else {   // float: every value is exactly representable in real_t
+        switch (cls) {
+        case V_SMALLINT: return float(r.range(-3, 3));
+        case V_SPECIAL: { static const float f[] = {0.0f, -0.0f, 1.0f, -1.0f, 0.5f, -2.0f, 1e-30f, -1e-30f, 1e30f, -1e30f}; return f[r.range(0, 9)]; }
+        case V_GAUSS: return float(r.gauss());
+        case V_WIDE: return float((r.coin() ? 1.0 : -1.0) * r.logmag(-30, 30));
+        default: return src_elem<float>(r, r.range(0, 3));
+        }
+    }
+}
+// what the element must become (written out, no library conversion)
+template<class T, class S> T conv_elem(const S& v) {
+    if constexpr (std::is_same_v<S, T>) return v;
+    else if constexpr (std::is_same_v<S, zc>) return cmplx_t{v.real(), v.imag()};
+    else return static_cast<T>(v);   // int / float -> real_t: exact
+}
+template<class S> bool raw_same(const std::vector<S>& x, const std::vector<S>& y) {
+    return x.size() == y.size() && (x.empty() || std::memcmp(x.data(), y.data(), x.size() * sizeof(S)) == 0);
+}
+template<class S> void scribble(S& v, int i) {   // a value the element did not have
+    if constexpr (std::is_same_v<S, cmplx_t>) v = cmplx_t{v.re + 1.0 + i, -v.im - 2.0};
+    else if constexpr (std::is_same_v<S, zc>) v = zc(v.real() + 1.0 + i, -v.imag() - 2.0);
+    else if constexpr (std::is_same_v<S, int>) v = (v >= 0 ? v / 2 - 3 - i : v / 2 + 5 + i);
+    else v = (v == S(0)) ? S(1 + i) : -v * S(0.5);
+}
+template<class T, class S>
+void conv_case(int how, int mut, int op, int n, int vcls, Rng& r, Out& o) {
+    using A = base_array<T>;
+    constexpr int sidx = std::is_same_v<S, T> ? ST_SAME : std::is_same_v<S, int> ? ST_INT : std::is_same_v<S, float> ? ST_FLOAT : ST_ZC;
+    const std::string tn = std::is_same_v<T, real_t> ? "arr_real" : "arr_cmplx";
+    const std::string what = tn + " " + CH_NAME[how] + " (" + (sidx == ST_SAME ? (std::is_same_v<T, real_t> ? "real_t" : "cmplx_t") : ST_NAME[sidx]) + ")";
+    const std::string path = CH_NAME[how];
+    std::vector<S> src(static_cast<size_t>(n));
+    for (auto& e : src) e = src_elem<S>(r, vcls);
+    const std::vector<S> ssnap = src;
+    std::vector<T> want;
+    for (auto& e : src) want.push_back(conv_elem<T, S>(e));
+    auto is_want = [&](const A& b) { return b.size() == int(want.size()) && (want.empty() || std::memcmp(b.data(), want.data(), want.size() * sizeof(T)) == 0); };
+    auto differs = [&](const A& b) { o.fail("convert-differs:" + path, fmt("%s of %d elements does not hold exactly the source elements (size %d)", what.c_str(), n, b.size())); };
+    auto dep_fwd = [&]() { o.fail("convert-not-independent:" + path, fmt("%s (n=%d): %s on the new array changed its source", what.c_str(), n, MU_NAME[mut])); };
+    auto dep_back = [&]() { o.fail("convert-not-independent:" + path, fmt("%s (n=%d): changing the source afterwards changed the array", what.c_str(), n)); };
+    A b;
+    std::string region;
+    if (how == CH_INIT_LIST) {
+        if constexpr (std::is_same_v<S, T>) {
+            // the list's backing array is immutable: construct, compare, change the new array, the list must still read the same
+            auto with = [&](std::initializer_list<T> il) {
+                static_assert(std::is_constructible_v<A, const std::initializer_list<T>&>);
+                A t(il);
+                if (!is_want(t)) { differs(t); return; }
+                if (n > 0 && t.data() == il.begin()) { o.fail("copy-shares-storage:" + path, what + ": array and list share storage"); return; }
+                mutate(t, mut, op, r);
+                if (!(il.size() == want.size() && (want.empty() || std::memcmp(il.begin(), want.data(), want.size() * sizeof(T)) == 0))) dep_fwd();
+            };
+            const std::vector<T>& w = want;
+            switch (n) {
+            case 0: with({}); break;
+            case 1: with({w[0]}); break;
+            case 2: with({w[0], w[1]}); break;
+            case 3: with({w[0], w[1], w[2]}); break;
+            case 4: with({w[0], w[1], w[2], w[3]}); break;
+            case 5: with({w[0], w[1], w[2], w[3], w[4]}); break;
+            case 6: with({w[0], w[1], w[2], w[3], w[4], w[5]}); break;
+            case 7: with({w[0], w[1], w[2], w[3], w[4], w[5], w[6]}); break;
+            default: with({w[0], w[1], w[2], w[3], w[4], w[5], w[6], w[7]}); break;
+            }
+        }
+    } else if (how == CH_SLICE || how == CH_CONST_SLICE) {
+        if constexpr (std::is_same_v<S, T>) {
+            // source: an array x and a window (i1, i2, step) on it; n >= 1 (slicing an empty array is rejected by the library)
+            A x(src);
+            const A sx = x;
+            static const int steps[] = {1, 1, 2, 3, -1, -2, 5};
+            const int m = steps[r.range(0, 6)];
+            const int i1 = r.range(0, n - 1), i2 = m > 0 ? r.range(i1, n) : r.range(0, i1);
+            const int via = r.range(0, 2);   // 0: constructor, 1: operator* of the slice, 2: assignment over an existing array
+            want.clear();
+            if (m > 0) for (int k = i1; k < i2; k += m) want.push_back(sx[k]);
+            else for (int k = i1; k > i2; k += m) want.push_back(sx[k]);
+            const A& cx = x;
+            static_assert(std::is_constructible_v<A, const slice_t<T>&> && std::is_constructible_v<A, const const_slice_t<T>&>);
+            if (how == CH_SLICE) {
+                if (via == 0) { A t(x.slice(i1, i2, m)); b = std::move(t); }
+                else if (via == 1) { A t = *x.slice(i1, i2, m); b = std::move(t); }
+                else { b = mk_arr<T>(r, r.range(0, n + 2), V_GAUSS); b = x.slice(i1, i2, m); }
+            } else {
+                if (via == 0) { A t(cx.slice(i1, i2, m)); b = std::move(t); }
+                else if (via == 1) { A t = *cx.slice(i1, i2, m); b = std::move(t); }
+                else { b = mk_arr<T>(r, r.range(0, n + 2), V_GAUSS); b = cx.slice(i1, i2, m); }
+            }
+            if (!is_want(b)) { o.fail("convert-differs:" + path, fmt("%s: x.slice(%d, %d, %d) of %d elements gave %d elements that are not exactly x[%d], x[%d], ... (%zu expected)", what.c_str(), i1, i2, m, n, b.size(), i1, i1 + m, want.size())); return; }
+            if (!bits_same(x, sx)) { o.fail("copy-modified-source:" + path, what + ": making the array changed the source"); return; }
+            if (b.size() > 0 && b.data() >= x.data() && b.data() < x.data() + n) { o.fail("copy-shares-storage:" + path, what + ": array and sliced source share storage"); return; }
+            mutate(b, mut, op, r);
+            if (!bits_same(x, sx)) { dep_fwd(); return; }
+            const A sb = b;
+            mutate(x, (mut + 1 + r.range(0, MU_N - 2)) % MU_N, (op + 1) % 4, r);
+            if (!bits_same(b, sb)) { dep_back(); return; }
+            x = A();
+            if (!bits_same(b, sb)) { dep_back(); return; }
+            region = std::string(m == 1 ? "slice:step 1" : m > 1 ? "slice:step > 1" : "slice:negative step") + (want.empty() ? ", empty" : int(want.size()) == n ? ", whole array" : ", proper part");
+            o.label(via == 0 ? "slice-via:constructor" : via == 1 ? "slice-via:operator*" : "slice-via:assignment over an array");
+        }
+    } else {
+        // sources that can be written to afterwards: base_array<S>, std::vector<S> (lvalue / moved-from), a raw buffer
+        base_array<S> sarr;
+        std::vector<S> moved;
+        if (how == CH_CONV_ARRAY) {
+            if constexpr (!std::is_same_v<S, T>) {
+                sarr = base_array<S>(src);
+                static_assert(std::is_constructible_v<A, const base_array<S>&>);
+                A t(sarr);
+                b = std::move(t);
+                if (!raw_same(sarr.to_vec(), ssnap)) { o.fail("copy-modified-source:" + path, what + ": making the array changed the source"); return; }
+            }
+        } else if (how == CH_VECTOR) {
+            static_assert(std::is_constructible_v<A, const std::vector<S>&>);
+            A t(src);
+            b = std::move(t);
+        } else if (how == CH_VECTOR_MOVE) {
+            if constexpr (std::is_same_v<S, T>) {
+                moved = src;
+                A t(std::move(moved));
+                b = std::move(t);
+            }
+        } else {
+            static_assert(std::is_constructible_v<A, const S*, size_t>);
+            A t(static_cast<const S*>(src.data()), size_t(n));
+            b = std::move(t);
+        }
+        if (!is_want(b)) { differs(b); return; }
+        if (!raw_same(src, ssnap)) { o.fail("copy-modified-source:" + path, what + ": making the array changed the source"); return; }
+        if constexpr (std::is_same_v<S, T>) if (n > 0 && b.data() == src.data()) { o.fail("copy-shares-storage:" + path, what + ": array and source share storage"); return; }
+        // change the new array: the source must not move
+        mutate(b, mut, op, r);
+        if (!raw_same(src, ssnap) || (how == CH_CONV_ARRAY && !raw_same(sarr.to_vec(), ssnap))) { dep_fwd(); return; }
+        // change the source (every element, then release its storage): the array must not move
+        const A sb = b;
+        if (how == CH_CONV_ARRAY) { for (int i = 0; i < n; ++i) scribble(sarr[i], i); if (!bits_same(b, sb)) { dep_back(); return; } sarr = base_array<S>(); }
+        else if (how == CH_VECTOR_MOVE) { moved.assign(size_t(n) + 3, S(9)); if (!bits_same(b, sb)) { dep_back(); return; } std::vector<S>().swap(moved); }
+        else { for (int i = 0; i < n; ++i) scribble(src[size_t(i)], i); if (!bits_same(b, sb)) { dep_back(); return; } std::vector<S>().swap(src); }
+        if (!bits_same(b, sb)) { dep_back(); return; }
+    }
+    if (o.failed) return;
+    if (n >= 1 && !want.empty()) o.nontrivial(key_of(how, sidx, mut, op, sizeof(T), n, vcls));
+    o.label(std::string("copy:") + CH_NAME[how]);
+    o.label(std::string("source-elements:") + (sidx == ST_SAME ? "same type" : ST_NAME[sidx]) + " -> " + tn);
+    o.label(std::string("then:") + MU_NAME[mut]);
+    if (!region.empty()) o.label(region);
+}
 }   // namespace
 static void cp_check(const Json& c, Out& o) {
-    const int how = c.geti("how"), mut = c.geti("mut"), op = c.geti("op"), ty = c.geti("ty"), n = c.geti("n"), vcls = c.geti("vcls");
+    const int how = c.geti("how"), mut = c.geti("mut"), op = c.geti("op"), ty = c.geti("ty"), n = c.geti("n"), vcls = c.geti("vcls"), src = c.geti("src", 0);
     if (how < 0 || how >= CH_N || mut < 0 || mut >= MU_N || op < 0 || op > 3 || n < 0 || ty < 0 || ty > 1) { o.discard = true; return; }
     Rng r(c.getu("seed"));
+    if (how >= CH_CONV_ARRAY) {
+        if (!adm_conv(how, ty, src) || (how == CH_INIT_LIST && n > IL_MAX) || ((how == CH_SLICE || how == CH_CONST_SLICE) && n < 1)) { o.discard = true; return; }
+        if (ty == 0) {
+            if (src == ST_SAME) conv_case<real_t, real_t>(how, mut, op, n, vcls, r, o);
+            else if (src == ST_INT) conv_case<real_t, int>(how, mut, op, n, vcls, r, o);
+            else conv_case<real_t, float>(how, mut, op, n, vcls, r, o);
+        } else {
+            if (src == ST_SAME) conv_case<cmplx_t, cmplx_t>(how, mut, op, n, vcls, r, o);
+            else conv_case<cmplx_t, zc>(how, mut, op, n, vcls, r, o);
+        }
+        o.label(ty == 0 ? "types:arr_real" : "types:arr_cmplx");
+        return;
+    }
     if (ty == 0) copy_case<real_t>(how, mut, op, n, vcls, r, o);
     else copy_case<cmplx_t>(how, mut, op, n, vcls, r, o);
     o.label(ty == 0 ? "types:arr_real" : "types:arr_cmplx");
 }
 static void cp_gen(Ctx& ctx) {
-    for (int how = 0; how < CH_N; ++how)
+    for (int how = 0; how < CH_CONV_ARRAY; ++how)
         for (int mut = 0; mut < MU_N; ++mut)
             for (int ty = 0; ty < 2; ++ty)
                 for (int n = 0; n <= 64; ++n)
@@ -1256,9 +1524,307 @@ static void cp_gen(Ctx& ctx) {
                         if (!ctx.mine()) continue;
                         ctx.eval(Json::object().set("how", how).set("mut", mut).set("op", op).set("ty", ty).set("n", n).set("vcls", int((n + how) % V_NCLS)).set("seed", case_seed(ctx.seed, key_of(how, mut, ty, n, op, 5))));
                     }
+    // the other constructors: every admitted (constructor, source element type) x mutation x length (slices: 4 windows per length)
+    for (int how = CH_CONV_ARRAY; how < CH_N; ++how)
+        for (int src = 0; src < ST_N; ++src)
+            for (int mut = 0; mut < MU_N; ++mut)
+                for (int ty = 0; ty < 2; ++ty)
+                    for (int n = 0; n <= 64; ++n)
+                        for (int op = 0; op < 4; ++op)
+                            for (int rep = 0; rep < 4; ++rep) {
+                                const bool sl = how == CH_SLICE || how == CH_CONST_SLICE;
+                                if (!adm_conv(how, ty, src) || (how == CH_INIT_LIST && n > IL_MAX) || (sl && n < 1) || (!sl && rep > 0)) continue;
+                                if (op > 0 && mut != MU_SCALAR_OP && mut != MU_ARRAY_OP) continue;
+                                if (!ctx.mine()) continue;
+                                ctx.eval(Json::object().set("how", how).set("src", src).set("mut", mut).set("op", op).set("ty", ty).set("n", n).set("vcls", int((n + how + rep) % V_NCLS))
+                                           .set("seed", case_seed(ctx.seed, key_of(how, src, mut, ty, n, op, rep, 6))));
+                            }
     ctx.rc("sampled", budget(ctx, 600000, 6000000), [&]() {
         int n = pick(0, 2) == 0 ? pick_log(65, 10000) : pick(0, 64);
-        return Json::object().set("how", pick(0, CH_N - 1)).set("mut", pick(0, MU_N - 1)).set("op", pick(0, 3)).set("ty", pick(0, 1)).set("n", n).set("vcls", pick(0, V_NCLS - 1)).set("seed", (long long)seed64());
+        return Json::object().set("how", pick(0, CH_CONV_ARRAY - 1)).set("mut", pick(0, MU_N - 1)).set("op", pick(0, 3)).set("ty", pick(0, 1)).set("n", n).set("vcls", pick(0, V_NCLS - 1)).set("seed", (long long)seed64());
+    });
+    ctx.rc("sampled-constructors", budget(ctx, 300000, 3000000), [&]() {
+        const int how = pick(CH_CONV_ARRAY, CH_N - 1), ty = pick(0, 1);
+        int src = pick(0, ST_N - 1);
+        if (!adm_conv(how, ty, src)) src = adm_conv(how, ty, ST_SAME) ? int(ST_SAME) : ty == 0 ? int(ST_INT) : int(ST_ZC);
+        int n = how == CH_INIT_LIST ? pick(0, IL_MAX) : pick(0, 2) == 0 ? pick_log(65, 10000) : pick(0, 64);
+        if ((how == CH_SLICE || how == CH_CONST_SLICE) && n < 1) n = 1;
+        return Json::object().set("how", how).set("src", src).set("mut", pick(0, MU_N - 1)).set("op", pick(0, 3)).set("ty", ty).set("n", n).set("vcls", pick(0, V_NCLS - 1)).set("seed", (long long)seed64());
+    });
+}
+
+// =========================================================================================== cmplx_t scalar operators
+// Every operator form types.h declares on a cmplx_t SCALAR (the array loops above reach only some of them, and only through
+// the compound forms): cmplx_t op {cmplx_t, real_t, int, std::complex<double>}, {real_t, int, std::complex<double>} op cmplx_t
+// (the left-scalar templates), the 16 compound forms, unary - and +, the conversions real_t/int/std::complex <-> cmplx_t, and
+// the four global int +- std::complex<T> helpers of types.h.  One case = a batch of operand pairs; the batch of results is
+// compared by compare_single (same formulas, same tolerances as for the array operators).
+VK_SUB(so, "scalar_ops");
+namespace {
+// `std::complex<double> - cmplx_t` selects the left-scalar template operator-(const T&, const cmplx_t&) of types.h, whose body
+// `{lhs - rhs.re, -rhs.im}` is a hard compile error for a complex T (and would drop lhs.imag()).  0 = leave that form out.
+#ifndef C03_ZC_MINUS_CMPLX
+#define C03_ZC_MINUS_CMPLX 0
+#endif
+enum SForm { SF_BIN = 0, SF_CMP, SF_NEG, SF_POS, SF_CONV, SF_N };
+
+template<class T> constexpr bool is_sc4 = std::is_same_v<T, real_t> || std::is_same_v<T, cmplx_t> || std::is_same_v<T, int> || std::is_same_v<T, zc>;
+template<class L, class R>
+constexpr bool adm_sbin(int op) {
+    if (!is_sc4<L> || !is_sc4<R>) return false;
+    if (std::is_same_v<L, cmplx_t> || std::is_same_v<R, cmplx_t>) {
+        if (std::is_same_v<L, zc> && op == SUB) return C03_ZC_MINUS_CMPLX != 0;
+        return true;
+    }
+    // types.h, global namespace: int +- std::complex<T> and std::complex<T> +- int (result std::complex<T>)
+    if ((std::is_same_v<L, int> && std::is_same_v<R, zc>) || (std::is_same_v<L, zc> && std::is_same_v<R, int>)) return op == ADD || op == SUB;
+    return false;
+}
+template<class L, class R> using SRes = std::conditional_t<std::is_same_v<L, cmplx_t> || std::is_same_v<R, cmplx_t>, cmplx_t, zc>;
+bool ty_sc4(int t) { return t == T_SR || t == T_SC || t == T_SI || t == T_SZ; }
+// run-time mirror (cross-checked against the compile-time table through SExec::admitted)
+bool adm_srt(int sform, int op, int lt, int rt) {
+    if (!ty_sc4(lt)) return false;
+    if (sform == SF_NEG || sform == SF_POS) return lt == T_SC;
+    if (sform == SF_CONV) return true;
+    if (!ty_sc4(rt)) return false;
+    if (sform == SF_CMP) return lt == T_SC;
+    if (lt == T_SC || rt == T_SC) return !(lt == T_SZ && op == SUB && !C03_ZC_MINUS_CMPLX);
+    if ((lt == T_SI && rt == T_SZ) || (lt == T_SZ && rt == T_SI)) return op == ADD || op == SUB;
+    return false;
+}
+cmplx_t sc_store(const cmplx_t& v) { return v; }
+cmplx_t sc_store(const zc& v) { return cmplx_t{v.real(), v.imag()}; }
+
+struct SExec
+{
+    bool admitted{false};
+    bool ref_ok{true};
+    cmplx_t out;
+};
+template<class L, class R>
+void exec_sbin(int op, const L& a, const R& b, SExec& ex) {
+#define C03_SBIN(OPC, EXPR)                                                                                            \
+    case OPC:                                                                                                          \
+        if constexpr (adm_sbin<L, R>(OPC)) {                                                                           \
+            static_assert(std::is_same_v<decltype(EXPR), SRes<L, R>>, "scalar promotion: result type of " #EXPR);      \
+            ex.out = sc_store(EXPR);                                                                                   \
+            ex.admitted = true;                                                                                        \
+        }                                                                                                              \
+        break;
+    switch (op) {
+        C03_SBIN(ADD, a + b)
+        C03_SBIN(SUB, a - b)
+        C03_SBIN(MUL, a * b)
+        C03_SBIN(DIV, a / b)
+    default: break;
+    }
+#undef C03_SBIN
+}
+template<class L, class R>
+void exec_scmp(int op, L& a, const R& b, SExec& ex) {
+    if constexpr (std::is_same_v<L, cmplx_t> && is_sc4<R>) {
+#define C03_SCMP(OPC, EXPR)                                                                                            \
+    case OPC: {                                                                                                        \
+        static_assert(std::is_same_v<decltype(EXPR), cmplx_t&>, "scalar compound result type of " #EXPR);              \
+        cmplx_t& r_ = (EXPR);                                                                                          \
+        ex.ref_ok = (&r_ == &a);                                                                                       \
+        ex.out = a;                                                                                                    \
+        ex.admitted = true;                                                                                            \
+        break;                                                                                                         \
+    }
+        switch (op) {
+            C03_SCMP(ADD, a += b)
+            C03_SCMP(SUB, a -= b)
+            C03_SCMP(MUL, a *= b)
+            C03_SCMP(DIV, a /= b)
+        default: break;
+        }
+#undef C03_SCMP
+    }
+}
+SExec run_sbin(int op, const Val& a, const Val& b) {
+    SExec ex;
+    std::visit([&](const auto& x, const auto& y) { exec_sbin(op, x, y, ex); }, a, b);
+    return ex;
+}
+SExec run_scmp(int op, Val& a, const Val& b) {
+    SExec ex;
+    std::visit([&](auto& x, const auto& y) { exec_scmp(op, x, y, ex); }, a, b);
+    return ex;
+}
+bool bits_eq(double x, double y) { return std::memcmp(&x, &y, sizeof x) == 0; }
+// unary -, unary +, conversions; `problem` is set when a conversion is not bit-exact
+SExec run_sunary(int sform, const Val& a, std::string& problem) {
+    SExec ex;
+    std::visit(
+      [&](const auto& x) {
+          using L = std::decay_t<decltype(x)>;
+          if constexpr (std::is_same_v<L, cmplx_t>) {
+              if (sform == SF_NEG) {
+                  static_assert(std::is_same_v<decltype(-x), cmplx_t>, "unary minus result type");
+                  ex.out = -x;
+                  ex.admitted = true;
+              } else if (sform == SF_POS) {
+                  static_assert(std::is_same_v<std::decay_t<decltype(+x)>, cmplx_t>, "unary plus result type");
+                  ex.out = +x;
+                  ex.admitted = true;
+              } else if (sform == SF_CONV) {   // cmplx_t -> std::complex<double> -> cmplx_t
+                  static_assert(std::is_convertible_v<cmplx_t, zc> && std::is_convertible_v<zc, cmplx_t>);
+                  const zc z = x;
+                  const cmplx_t back = z;
+                  if (!bits_eq(z.real(), x.re) || !bits_eq(z.imag(), x.im)) problem = fmt("std::complex<double>(cmplx_t{%.17g, %.17g}) is (%.17g, %.17g)", x.re, x.im, z.real(), z.imag());
+                  ex.out = back;
+                  ex.admitted = true;
+              }
+          } else if constexpr (std::is_same_v<L, zc>) {
+              if (sform == SF_CONV) {   // std::complex<double> -> cmplx_t -> std::complex<double>
+                  const cmplx_t cnv = x;
+                  const zc back = cnv;
+                  if (!bits_eq(back.real(), x.real()) || !bits_eq(back.imag(), x.imag())) problem = fmt("std::complex<double>(%.17g, %.17g) -> cmplx_t -> std::complex<double> gives (%.17g, %.17g)", x.real(), x.imag(), back.real(), back.imag());
+                  ex.out = cnv;
+                  ex.admitted = true;
+              }
+          } else if constexpr (std::is_same_v<L, real_t> || std::is_same_v<L, int>) {
+              if (sform == SF_CONV) {   // the promotion real -> complex: (v, +0)
+                  static_assert(std::is_convertible_v<L, cmplx_t>);
+                  const cmplx_t cnv = x;
+                  if (!bits_eq(cnv.im, 0.0)) problem = fmt("cmplx_t(%.17g) has the imaginary part %.17g", double(x), cnv.im);
+                  ex.out = cnv;
+                  ex.admitted = true;
+              }
+          }
+      },
+      a);
+    return ex;
+}
+// the scalar operands of a batch as an array operand for compare_single (built by hand, no library conversion)
+Val batch_arr(const std::vector<Val>& v, bool as_cx) {
+    const int n = int(v.size());
+    if (as_cx) {
+        arr_cmplx x(n);
+        for (int i = 0; i < n; ++i) { const cld e = ref_of(v[size_t(i)], 1)[0]; x[i] = cmplx_t{double(e.real()), double(e.imag())}; }
+        return Val(std::in_place_type<arr_cmplx>, std::move(x));
+    }
+    arr_real x(n);
+    for (int i = 0; i < n; ++i) x[i] = double(ref_of(v[size_t(i)], 1)[0].real());
+    return Val(std::in_place_type<arr_real>, std::move(x));
+}
+std::vector<Val> specials_of(int ty) {
+    std::vector<Val> v;
+    if (ty == T_SR) for (double e : RV_SPECIAL) v.emplace_back(std::in_place_type<real_t>, e);
+    else if (ty == T_SI) for (int e : IV_SPECIAL) v.emplace_back(std::in_place_type<int>, e);
+    else for (auto& e : CV_SPECIAL) { if (ty == T_SC) v.emplace_back(std::in_place_type<cmplx_t>, cmplx_t{e[0], e[1]}); else v.emplace_back(std::in_place_type<zc>, zc(e[0], e[1])); }
+    return v;
+}
+std::string sform_name(int sform, int op, int lt, int rt) {
+    if (sform == SF_CONV) return std::string("convert ") + TY_NAME[lt] + (lt == T_SC ? " -> std::complex<double> -> cmplx_t" : " -> cmplx_t");
+    return combo_name(sform == SF_BIN ? F_BIN : sform == SF_CMP ? F_CMP : sform == SF_NEG ? F_NEG : F_POS, op, lt, rt);
+}
+struct SCombo { int sform, op, lt, rt; };
+const std::vector<SCombo>& all_scombos() {
+    static std::vector<SCombo> v = [] {
+        std::vector<SCombo> r;
+        for (int sform : {SF_BIN, SF_CMP})
+            for (int op = 0; op < 4; ++op)
+                for (int lt = T_SR; lt < T_N; ++lt)
+                    for (int rt = T_SR; rt < T_N; ++rt)
+                        if (adm_srt(sform, op, lt, rt)) r.push_back({sform, op, lt, rt});
+        r.push_back({SF_NEG, 0, T_SC, T_SC});
+        r.push_back({SF_POS, 0, T_SC, T_SC});
+        for (int lt = T_SR; lt < T_N; ++lt) r.push_back({SF_CONV, 0, lt, lt});
+        return r;
+    }();
+    return v;
+}
+}   // namespace
+static void so_check(const Json& c, Out& o) {
+    const int sform = c.geti("sform"), op = c.geti("op"), lt = c.geti("lt"), rt = c.geti("rt"), vcls = c.geti("vcls"), grid = c.geti("grid", 0), k = c.geti("k", 64);
+    if (sform < 0 || sform >= SF_N || op < 0 || op > 3 || vcls < 0 || vcls >= V_NCLS || k < 1 || k > 4096 || !adm_srt(sform, op, lt, rt)) { o.discard = true; return; }
+    Rng r(c.getu("seed"));
+    const bool unary = sform >= SF_NEG;
+    const std::string what = sform_name(sform, op, lt, rt);
+    // operand pairs: the full cross product of the special values (grid), or k draws from the value class
+    std::vector<Val> A, B;
+    if (grid) {
+        const std::vector<Val> sa = specials_of(lt), sb = unary ? std::vector<Val>{Val(std::in_place_type<int>, 0)} : specials_of(rt);
+        for (auto& x : sa)
+            for (auto& y : sb) {
+                if (!unary && op == DIV && all_zero(y)) continue;   // divisors non-zero by construction
+                A.push_back(x);
+                B.push_back(y);
+            }
+    } else {
+        for (int i = 0; i < k; ++i) {
+            A.push_back(mk(r, lt, 0, vcls, false));
+            B.push_back(unary ? Val(std::in_place_type<int>, 0) : mk(r, rt, 0, vcls, op == DIV));
+        }
+    }
+    const int K = int(A.size());
+    o.evals = K;
+    arr_cmplx out(K);
+    for (int i = 0; i < K; ++i) {
+        const size_t q = size_t(i);
+        const Val sa = A[q], sb = B[q];
+        SExec ex;
+        std::string problem;
+        if (unary) ex = run_sunary(sform, A[q], problem);
+        else if (sform == SF_BIN) ex = run_sbin(op, A[q], B[q]);
+        else {
+            Val t = A[q];   // op= on a copy of the left operand
+            ex = run_scmp(op, t, B[q]);
+        }
+        if (!ex.admitted) throw std::logic_error("C03 harness: run-time and compile-time scalar overload tables disagree for " + what);
+        if (!problem.empty()) { o.fail("scalar-convert:" + what, what + ": " + problem); return; }
+        if (!ex.ref_ok) { o.fail("compound-ref:" + what, what + " did not return a reference to its left operand"); return; }
+        if (!same_bits(A[q], sa) || !same_bits(B[q], sb)) { o.fail("operand-modified:" + what, fmt("%s, pair %d: an operand changed", what.c_str(), i)); return; }
+        out[i] = ex.out;
+    }
+    compare_single(Val(std::in_place_type<arr_cmplx>, out), unary ? (sform == SF_NEG ? 1 : 2) : 0, op, batch_arr(A, unary || ty_cx(lt)), unary ? Val(std::in_place_type<int>, 0) : batch_arr(B, ty_cx(rt)), K, what, o);
+    // which value regions the batch reached
+    bool nonzero = false, negzero = false, zero = false, axis = false, tiny = false, huge = false, imin = false, imax = false;
+    auto scan = [&](const Val& v) {
+        if (auto p = std::get_if<int>(&v)) { imin |= *p == INT_MIN; imax |= *p == INT_MAX; }
+        const cld e = ref_of(v, 1)[0];
+        const double re = double(e.real()), im = double(e.imag());
+        const bool cx = ty_cx(ty_of(v));
+        if ((re == 0 && std::signbit(re)) || (cx && im == 0 && std::signbit(im))) negzero = true;
+        if (re == 0 && im == 0) { zero = true; return; }
+        nonzero = true;
+        if (cx && (re == 0 || im == 0)) axis = true;
+        const ld m = mod(e);
+        tiny |= m <= 1e-99L;
+        huge |= m >= 1e99L;
+    };
+    for (int i = 0; i < K; ++i) { scan(A[size_t(i)]); if (!unary) scan(B[size_t(i)]); }
+    if (nonzero) o.nontrivial(key_of(sform, op, lt, rt, vcls, grid));
+    o.label(std::string("scalar-form:") + (sform == SF_BIN ? "binary " : sform == SF_CMP ? "compound " : sform == SF_NEG ? "unary -" : sform == SF_POS ? "unary +" : "conversion") + (unary ? "" : OP_NAME[op]));
+    o.label(std::string("scalar-types:") + TY_NAME[lt] + (unary ? "" : std::string(",") + TY_NAME[rt]));
+    if (!unary) o.label(lt == T_SC && rt == T_SC ? "scalar-side:cmplx op cmplx" : lt == T_SC ? "scalar-side:cmplx op other scalar" : rt == T_SC ? "scalar-side:other scalar op cmplx (left-scalar templates)" : "scalar-side:int with std::complex (global helpers)");
+    o.label(grid ? "values:special x special (full cross product)" : std::string("values:") + VCLS_NAME[vcls]);
+    if (zero) o.label("operand:exact zero");
+    if (negzero) o.label("operand:negative zero component");
+    if (axis) o.label("operand:axis-aligned complex (re==0 or im==0 exactly)");
+    if (tiny) o.label("operand:|v|<=1e-99");
+    if (huge) o.label("operand:|v|>=1e99");
+    if (imin) o.label(std::string("operand:INT_MIN ") + OP_NAME[op]);
+    if (imax) o.label(std::string("operand:INT_MAX ") + OP_NAME[op]);
+    if (sform == SF_BIN && op == SUB && rt == T_SC && !C03_ZC_MINUS_CMPLX) o.label("excluded:std::complex<double> - cmplx_t (does not compile)");
+}
+static void so_gen(Ctx& ctx) {
+    const auto& combos = all_scombos();
+    for (size_t ci = 0; ci < combos.size(); ++ci) {
+        const SCombo& k = combos[ci];
+        if (ctx.mine()) ctx.eval(Json::object().set("sform", k.sform).set("op", k.op).set("lt", k.lt).set("rt", k.rt).set("vcls", int(V_SPECIAL)).set("grid", 1).set("seed", 0));
+        for (int vcls = 0; vcls < V_NCLS; ++vcls)
+            for (int rep = 0; rep < ctx.by_tier(8, 64); ++rep) {
+                if (!ctx.mine()) continue;
+                ctx.eval(Json::object().set("sform", k.sform).set("op", k.op).set("lt", k.lt).set("rt", k.rt).set("vcls", vcls).set("k", 64).set("seed", case_seed(ctx.seed, key_of(ci, vcls, rep, 51))));
+            }
+    }
+    ctx.rc("sampled", budget(ctx, 600000, 6000000), [&]() {
+        const SCombo& k = combos[size_t(pick(0, int(combos.size()) - 1))];
+        return Json::object().set("sform", k.sform).set("op", k.op).set("lt", k.lt).set("rt", k.rt).set("vcls", pick(0, V_NCLS - 1)).set("k", pick(1, 64)).set("seed", (long long)seed64());
     });
 }
 
